@@ -53,7 +53,12 @@ class UnionSpecifier(VersionSpecifier):
             and right.min is not None
         ):
             # (-inf, X.Y.0) | [X.Y+1.0, inf) => != X.Y.*
-            if left.max.is_prerelease or right.min.is_prerelease:
+            if (
+                left.max.is_prerelease
+                or right.min.is_prerelease
+                or left.max.is_postrelease
+                or right.min.is_postrelease
+            ):
                 return None
             left_stable = [left.max.epoch, *left.max.release]
             right_stable = [right.min.epoch, *right.min.release]
@@ -62,7 +67,7 @@ class UnionSpecifier(VersionSpecifier):
             right_stable = pad_zeros(right_stable, max_length)
             first_different = first_different_index(left_stable, right_stable)
             if (
-                first_different > 0
+                0 < first_different < max_length
                 and right_stable[first_different] - left_stable[first_different] == 1
                 and set(
                     left_stable[first_different + 1 :]
@@ -71,7 +76,7 @@ class UnionSpecifier(VersionSpecifier):
                 == {0}
             ):
                 epoch = "" if left.max.epoch == 0 else f"{left.max.epoch}!"
-                version = ".".join(map(str, left.max.release[:first_different])) + ".*"
+                version = ".".join(map(str, left_stable[1 : first_different + 1])) + ".*"
                 return f"!={epoch}{version}"
 
         return None
